@@ -9,7 +9,7 @@ class Ctx:
         import numpy as np; return np.random.default_rng([self.seed,salt])
 t0=time.time()
 sl=refine.refine_batch(Ctx(), int(sys.argv[1]))
-print({k:v for k,v in sl.hist.items() if k.startswith('diff') or k.startswith('runs-cut')})
+print({k:v for k,v in sl.hist.items() if k.startswith('diff') or k.startswith('runs-cut') or k.startswith('engine-')})
 print('cases',sl.cases,'disagreements',len(sl.disagreements),'violations',len(sl.violations),round(time.time()-t0,1),'s')
 for d in sl.disagreements[:3]:
     print(d.get('describe'), d.get('kind'), (d.get('model') or '')[:300], '<<>>', (d.get('impl') or '')[:300])
